@@ -108,10 +108,9 @@ VARIABLES src,       \* the text
           tree,      \* children of the finished annotation
           rejected   \* ValueError raised by split_into_groups (caught by __init__ -> empty contents)
 vars == <<src, phase, i, spacing, found, tagStart, lastEnd, out, tk, stack, tree, rejected>>
-Texts == UNION {[1..n -> Alpha] : n \in 0..N}
 InitRegs == /\ phase = "scan" /\ i = 0 /\ spacing = 0 /\ found = TRUE /\ tagStart = None /\ lastEnd = 0
             /\ out = <<>> /\ tk = 0 /\ stack = <<>> /\ tree = <<>> /\ rejected = FALSE
-Init == src \in Texts /\ InitRegs
+Init == (\E n \in 0..N : src \in [1..n -> Alpha]) /\ InitRegs
 Tok(isTag, a, b) == <<isTag, a, b>>
 GrpVars == <<tk, stack, tree, rejected>>
 ScanGuard == phase = "scan" /\ i < Len(src)
